@@ -477,6 +477,114 @@ func c10Life(i int, raw []byte) Result {
 	return r
 }
 
+// c10LifeFmt: the same histories on a document of every other format (DOCX, ODT, XLSX, PPTX, EPUB, HTML). Only
+// histories whose derivations are option-only are replayed (page selection is a PDF notion): a derivation is
+// ExcludeHeaders(), PageCount and Text must succeed, and the descriptor accounting of Lifecycle.tla must hold.
+var lifeFmtOnce sync.Once
+var lifeFmtPaths map[string]string
+
+func c10LifeFmt(i int, raw []byte) Result {
+	var c lifeCase
+	if err := json.Unmarshal(raw, &c); err != nil {
+		return fail("decode", "decode", err.Error(), nil)
+	}
+	for _, op := range c.Log {
+		if op.Op == "derive" && op.Kind != "col" {
+			return Result{OK: true, Key: string(raw)}
+		}
+	}
+	lifeFmtOnce.Do(func() {
+		lifeFmtPaths = map[string]string{}
+		dir := os.Getenv("VERIF_SCRATCH")
+		if dir == "" {
+			dir = os.TempDir()
+		}
+		put := func(ext string, b []byte, err error) {
+			if err == nil {
+				p := filepath.Join(dir, fmt.Sprintf("c10fmt-%d.%s", os.Getpid(), ext))
+				if os.WriteFile(p, b, 0o644) == nil {
+					lifeFmtPaths[ext] = p
+				}
+			}
+		}
+		b, err := zipOf(docxMembers())
+		put("docx", b, err)
+		b, err = zipOf(odtMembers())
+		put("odt", b, err)
+		b, err = zipOf(xlsxMembers())
+		put("xlsx", b, err)
+		b, err = zipOf(pptxMembers())
+		put("pptx", b, err)
+		b, err = zipOf(epubMembers(epubCfg{}))
+		put("epub", b, err)
+		put("html", []byte("<!DOCTYPE html><html><body><h1>t</h1><p>"+c20Token+"</p></body></html>"), nil)
+	})
+	r := Result{OK: true, Nontrivial: len(c.Log) >= 2, Key: string(raw)}
+	for _, ext := range []string{"docx", "odt", "xlsx", "pptx", "epub", "html"} {
+		path := lifeFmtPaths[ext]
+		if path == "" {
+			return Result{OK: false, Sig: "MACHINERY:writer", What: "no " + ext + " document"}
+		}
+		base := countFDs()
+		exts := []*tabula.Extractor{tabula.Open(path)}
+		mk := func(cl, what string, step int) Result {
+			for _, e := range exts {
+				e.Close()
+			}
+			x := fail(cl, "C10:"+cl+":"+ext, what+fmt.Sprintf(" (%s document, history %s, step %d)", ext, mustJSON(c.Log), step+1), map[string]interface{}{"case": json.RawMessage(raw), "step": step + 1, "format": ext})
+			x.Nontrivial, x.Key, x.Evals = r.Nontrivial, r.Key, r.Evals
+			return x
+		}
+		for k, op := range c.Log {
+			e := exts[op.E-1]
+			got := "ok"
+			func() {
+				defer func() {
+					if p := recover(); p != nil {
+						got = fmt.Sprint("panic: ", p)
+					}
+				}()
+				switch op.Op {
+				case "derive":
+					exts = append(exts, e.ExcludeHeaders())
+				case "pagecount":
+					if _, err := e.PageCount(); err != nil {
+						got = "error: " + err.Error()
+					}
+				case "text":
+					s, _, err := e.Text()
+					if err != nil {
+						got = "error: " + err.Error()
+					} else if !strings.Contains(s, c20Token) {
+						got = "error: text lacks the content"
+					}
+				case "close":
+					e.Close()
+				}
+			}()
+			r.Evals++
+			open := countFDs() - base
+			if classify(got) == "panic" {
+				return mk("life-panic", fmt.Sprintf("%s panicked: %s", op.Op, got), k)
+			}
+			if op.Res == "ok" && classify(got) != "ok" {
+				return mk("life-derive-not-pure", fmt.Sprintf("%s on extractor %d failed (%s) although only extractors derived from it were used in between", op.Op, op.E, got), k)
+			}
+			if open > op.Open {
+				return mk("life-handle-leak", fmt.Sprintf("%d file descriptors are open after %s, at most %d can still be needed", open, op.Op, op.Open), k)
+			}
+		}
+		for _, e := range exts {
+			e.Close()
+			e.Close()
+		}
+		if left := countFDs() - base; left != 0 {
+			return mk("life-handle-leak", fmt.Sprintf("%d file descriptors remain open after every extractor was closed", left), len(c.Log)-1)
+		}
+	}
+	return r
+}
+
 func classify(got string) string {
 	switch {
 	case got == "ok":
@@ -495,6 +603,8 @@ func c10(mode, in, out string) error {
 		return runCases(in, out, c10SelectOpts)
 	case "life":
 		return runCasesSerial(in, out, c10Life)
+	case "lifefmt":
+		return runCasesSerial(in, out, c10LifeFmt)
 	}
 	return fmt.Errorf("c10: unknown mode %s", mode)
 }
